@@ -99,6 +99,7 @@ type GenOpts struct {
 	NoScopes  bool   // all scopes absent
 	ErrProb   int    // percent of probes that return errors (default 20)
 	LeafProbe bool   // only probe leaves (no real modifiers)
+	Counters  bool   // a share of the probes count the messages they have seen (stateful leaves)
 }
 
 type gen struct {
@@ -165,6 +166,9 @@ func (g *gen) leaf() *Node {
 	case x < 60:
 		n.Kind = KProbe
 		n.A["id"] = g.id()
+		if g.o.Counters && g.rng.Intn(3) == 0 {
+			n.A["count"] = "1"
+		}
 		if g.rng.Intn(100) < g.o.ErrProb {
 			n.ErrOn = [][]Kind{{Req}, {Res}, {Req, Res}}[g.rng.Intn(3)]
 		}
@@ -406,7 +410,59 @@ func RandQuery(rng *rand.Rand) string {
 	for i := rng.Intn(4); i > 0; i-- {
 		parts = append(parts, EncQ(rng, QNames[pick(rng, len(QNames))])+"="+EncQ(rng, QVals[pick(rng, len(QVals))]))
 	}
+	if rng.Intn(8) == 0 {
+		parts = append(parts, MalformedPairs[pick(rng, len(MalformedPairs))])
+	}
 	return strings.Join(parts, "&")
+}
+
+// MalformedPairs are query-string pairs that net/url's ParseQuery rejects (a
+// stray percent sign, ';' used as a separator) but that are legal on the wire
+// and reach the modifiers untouched. Their names are outside the vocabulary,
+// so they never decide a filter condition or a verifier's key.
+var MalformedPairs = []string{"zz=%zz", "zy=100%", "s1=1;s2=2", "%zx=1"}
+
+// Malformed reports whether the raw query contains one of the MalformedPairs.
+func Malformed(rawQuery string) bool {
+	for _, kv := range strings.Split(rawQuery, "&") {
+		for _, m := range MalformedPairs {
+			if kv == m {
+				return true
+			}
+		}
+	}
+	return false
+}
+
+// Respace re-renders JSON text with different insignificant whitespace (the
+// same configuration "up to whitespace").
+func Respace(rng *rand.Rand, js string) string {
+	var sb strings.Builder
+	inStr := false
+	ws := []string{"", " ", "\n", "  ", "\t", "\n  "}
+	for i := 0; i < len(js); i++ {
+		c := js[i]
+		sb.WriteByte(c)
+		if inStr {
+			if c == '\\' && i+1 < len(js) {
+				i++
+				sb.WriteByte(js[i])
+			} else if c == '"' {
+				inStr = false
+			}
+			continue
+		}
+		switch c {
+		case '"':
+			inStr = true
+		case '{', '[', ',', ':':
+			sb.WriteString(ws[rng.Intn(len(ws))])
+		}
+	}
+	if rng.Intn(3) == 0 {
+		return sb.String() + "\n"
+	}
+	return sb.String()
 }
 
 // RandMsg draws a message from the vocabulary.
